@@ -176,3 +176,71 @@ def stub_canary():
         return _state["raise"] is None
     finally:
         _state["raise"] = None
+
+
+# ---------------------------------------------------------------------------------------------
+# Real sources through the REAL parser (stub bypassed): verify() must agree with CPython on accept / reject, on the
+# reported line, and store CPython's own tree. The menu is enumerated by the solver; each body runs untraced.
+REAL_SOURCES = [
+    "x = 1\nprint(x)\n", "def f(a):\n    return a + 1\n", "x = (1 +\n", "if x:\nprint(x)\n", "  x = 1\n", "x = 1\n\ty = 2\n        z = 3\n",
+    "x = 1\0", "a = 1\rb = 2\rc = (\r", "a = 1\r\nb = 2\r\nc = (\r\n", "x = 1\x0cy = 2 2\n", "\u00e9 = 1\nprint(\u00e9)\n", "s = '''a\nb\n",
+    "x = 1  # type: int\n", "x = [  # type: int\n    1]\n", "def f(a):\n    # type: (int) -> int\n    return a\n", "print('a' 'b'\n",
+    "def f(x):\n    if x:\nreturn 1\n", "x = 1\ny = 2\n@property", "class A:\n    def m(self):\n        pass\n  x = 1\n", "",
+    "   \n\t\n", "x = 1;;\n", "lambda: (yield)\n", "f(**a, *b)\n", "x = 0777\n", "print 'hi'\n", "x = 1 if else 2\n",
+    "for i in range(3):\n    pass\nelse:\n    pass\n", "a = 1\n\n\n\n\nb = )\n", "match x:\n    case 1:\n        pass\n",
+    "def f():\n\tif 1:\n\t\tpass\n\telse:\n\t    pass\n", "x = '\\N{DOES NOT EXIST}'\n",
+]
+
+
+def real_sources(k0: bool, k1: bool, k2: bool, k3: bool, k4: bool, offset2: bool) -> bool:
+    """
+    32 concrete sources (valid programs; errors of every harvested shape; NUL, CR, CRLF, form feed, non-ASCII identifiers,
+    type comments, tabs vs spaces, unterminated strings, bad escapes) through the real verify(): never raises; a
+    syntax-category error feedback iff ast.parse rejects the text; its line is CPython's line (+ the section offset); on
+    acceptance the stored tree equals CPython's and no syntax feedback exists (blank text: blank_source).
+
+    pre: True
+    post: _
+    """
+    if tick():
+        return True
+    k = bits(k0, k1, k2, k3, k4)
+    if k >= len(REAL_SOURCES):
+        return True
+    from crosshair.tracers import NoTracing
+    with NoTracing():
+        return _real_source(REAL_SOURCES[k], 2 if offset2 else 0)
+
+
+def _real_source(code, offset):
+    import warnings
+    saved = SRC.ast
+    SRC.ast = real_ast                      # bypass the parser stub for this obligation
+    try:
+        try:
+            with warnings.catch_warnings():
+                warnings.simplefilter("ignore")
+                want_tree, want_err = real_ast.parse(code, "answer.py"), None
+        except SyntaxError as e:
+            want_tree, want_err = None, e
+        r = Report()
+        r.contextualize(Submission({"answer.py": code}, "answer.py", code))
+        if offset:
+            r.submission.set_line_offset(offset)
+        with warnings.catch_warnings():
+            warnings.simplefilter("ignore")
+            res = verify(report=r)
+        errs = [f for f in r.feedback + r.ignored_feedback if f.label in ("syntax_error", "indentation_error")]
+        if want_err is None:
+            if errs:
+                return False
+            if code.strip() == "":
+                return any(f.label == "blank_source" for f in r.feedback)
+            return res is True and real_ast.dump(r["source"]["ast"]) == real_ast.dump(want_tree)
+        if res is not False or len(errs) != 1 or not bool(errs[0]):
+            return False
+        if want_err.lineno is None:
+            return True                         # CPython itself reports no line for this error
+        return errs[0].location.line == want_err.lineno + offset
+    finally:
+        SRC.ast = saved
